@@ -463,7 +463,7 @@ func (c *irCtx) ir(e ast.Expr, depth int) string {
 type irFacts struct {
 	checkOkConds, checkOkPut                         []string
 	readGuards, readSets, readAtArgs, readNewLogData []string
-	readNext                                         []string
+	readNext, readNextInit                           []string
 	retentionGuards, retentionReturns, removeCond    []string
 }
 
@@ -505,6 +505,17 @@ func collectIR(f *fn, out *irFacts) {
 						b, ok2 := eb.List[0].(*ast.AssignStmt)
 						if ok1 && ok2 && len(a.Rhs) == 1 && len(b.Rhs) == 1 {
 							out.readNext = append(out.readNext, c.ir(s.Cond, 0), c.ir(a.Rhs[0], 0), fmt.Sprintf("(.str %s)", q(b.Tok.String())), c.ir(b.Rhs[0], 0))
+							// the first value of that variable: its `:=` definition
+							if id, ok := a.Lhs[0].(*ast.Ident); ok && id.Obj != nil {
+								ast.Inspect(f.decl.Body, func(m ast.Node) bool {
+									if as, ok := m.(*ast.AssignStmt); ok && as.Tok == token.DEFINE && len(as.Lhs) == 1 && len(as.Rhs) == 1 {
+										if l, ok := as.Lhs[0].(*ast.Ident); ok && l.Obj == id.Obj {
+											out.readNextInit = append(out.readNextInit, c.ir(as.Lhs[0], 0), c.ir(as.Rhs[0], 0))
+										}
+									}
+									return true
+								})
+							}
 						}
 					}
 				}
@@ -569,6 +580,7 @@ func (o *irFacts) write(b *strings.Builder) {
 	list("readAtArgs", "E", o.readAtArgs)
 	list("readNewLogData", "E", o.readNewLogData)
 	list("readNext", "E", o.readNext)
+	list("readNextInit", "E", o.readNextInit)
 	list("retentionGuards", "E", o.retentionGuards)
 	list("retentionReturns", "E", o.retentionReturns)
 	list("removeCond", "E", o.removeCond)
